@@ -12,6 +12,12 @@ checks = {
  "C20": ("exploration", "enum", E1,
          "Complete enumeration of the airtime parameter product and the EIRP index/float32 spaces, and a dense deterministic enumeration of UTC instants / GPS durations (every day 1980-2100, every ms around all 18 leap instants) against an independent leap-second list and the Semtech formula in exact rational arithmetic.",
          "Trusted: Go time arithmetic, math/big; the leap-second list and EIRP table transcribed in mc/spec. Instants between the enumerated ones (ns resolution over 120 years) are covered by the piecewise-linearity of the mapping between table entries, which the enumerated window edges pin down."),
+ "C11": ("exploration", "enum", E1,
+         "Every NetID (thorough: all 2^24; quick: per type all values of the low NwkID-width+2 ID bits with the high bits all-zero/all-one) x 16 previous addresses through SetAddrPrefix/IsNetID/NwkID/NetIDType against the addressing rule written from the specification, single-bit flips of every address and NetID ID bit for the membership test, and position x byte sweeps of all four identifier types through text/binary/database forms with wrong-length and malformed inputs.",
+         "DevAddr dimension is a 16-value alphabet plus complete single-bit walks; identifier round trips use per-position sweeps (byte positions are handled independently by the code)."),
+ "C06": ("exploration", "enum", E1,
+         "Every byte string of every <=2-byte MAC payload, all 2^24 BeaconFreqReq strings, per-position sweeps (thorough: all byte pairs, all 2^24 NewChannelReq frequency codes) of the 4/5-byte payloads, all 256 header bytes, all 65536 ChMask values, all CID x direction registry entries, CFList and join payload layouts, decoded by the library and by an independent bit-field table and re-encoded by both.",
+         "The table model mc/spec/mac.go is written from the LoRaWAN 1.0.4/1.1 text; cells where revisions disagree (DutyCycleReq 16..254, NewChannelReq 2.4 GHz codes) are decoded but not judged."),
 }
 
 def load_extra():
